@@ -7,6 +7,7 @@ import pexpect
 from pexpect import EOF, TIMEOUT
 
 from . import _expect_common as X
+from ..core.runner import split_range
 from ..monitors.expect_oracles import outcome_shape
 from ..workloads.transports import Link
 from ..workloads.puppetctl import PeerError
@@ -33,6 +34,10 @@ def plan(tier, seed):
     for i in range(reps):
         specs.append({'gen': 'real', 'rep': i, 'seed': seed, 'tier': tier})
     specs.append({'gen': 'diag', 'seed': seed, 'tier': tier})
+    n, k = (160, 4) if tier == 'quick' else (3000, 12)
+    for i, (a, b) in enumerate(split_range(n, k)):
+        # awaited calls against the naive model: EOF / TIMEOUT listed -> index, else raised; before = all pending
+        specs.append({'gen': 'async-model', 'n': b - a, 'shard': 450 + i, 'seed': seed, 'tier': tier})
     return specs
 
 
@@ -43,7 +48,13 @@ def run_shard(spec, acc):
             return real_case(c, acc)
         if isinstance(c, dict) and c.get('diag'):
             return diag_cases(acc)
+        if isinstance(c, dict) and 'calls' in c:
+            from . import _async_model as AM
+            return AM.run(spec, acc)
     g = spec.get('gen')
+    if g == 'async-model':
+        from . import _async_model as AM
+        return AM.run(spec, acc)
     if g == 'real':
         return real_cases(spec, acc)
     if g == 'diag':
